@@ -444,6 +444,29 @@ Proof.
   split; split; try discriminate; try lia; auto.
 Qed.
 
+(** The encoding is prefix-free: two encodings followed by anything agree as byte strings
+    only if the values, the encodings and the tails agree — so a concatenation of
+    varint-framed fields parses in exactly one way. *)
+Theorem append_varint_prefix_free_l v1 v2 e1 e2 r1 r2 :
+  v1 <= max_varint -> v2 <= max_varint ->
+  append_varint [] v1 = Ok e1 -> append_varint [] v2 = Ok e2 ->
+  e1 ++ r1 = e2 ++ r2 -> v1 = v2 /\ e1 = e2 /\ r1 = r2.
+Proof.
+  intros H1 H2 E1 E2 Heq.
+  pose proof (consume_append_l v1 r1 e1 H1 E1) as C1.
+  pose proof (consume_append_l v2 r2 e2 H2 E2) as C2.
+  rewrite Heq in C1. rewrite C1 in C2. injection C2 as Hv Hl.
+  subst v2. rewrite E1 in E2. injection E2 as He. subst e2.
+  split; [reflexivity | split; [reflexivity | exact (app_inv_head _ _ _ Heq)]].
+Qed.
+Theorem append_varint_injective_l v1 v2 e :
+  v1 <= max_varint -> v2 <= max_varint ->
+  append_varint [] v1 = Ok e -> append_varint [] v2 = Ok e -> v1 = v2.
+Proof.
+  intros H1 H2 E1 E2.
+  destruct (append_varint_prefix_free_l v1 v2 e e [] [] H1 H2 E1 E2 eq_refl) as [Hv _]. exact Hv.
+Qed.
+
 (** Non-vacuity: concrete instances *)
 Example ex_enc_16383 : append_varint [x01] 16383 = Ok [x01; x7f; xff].
 Proof. vm_compute. reflexivity. Qed.
